@@ -42,6 +42,7 @@ type Program struct {
 	views        map[*ssa.Function]*viewInfo
 	viewOf       map[*ssa.Function]*viewInfo
 	viewFailures []string
+	tailOnlyMemo map[*ssa.Function]bool
 	useViews     bool
 	rp           map[*ssa.Function]bool
 	bp           map[*ssa.Function]bool
